@@ -261,7 +261,9 @@ Fixpoint build (fuel : nat) (j : json) : res term :=
                 | Some dv =>
                     do dur <- as_duration dv;
                     do f <- get_config_i64 j "frequency";
-                    Ok (Runtime dur (cast_u64 f))
+                    (* /repo dcfc7c1: a non-positive frequency is a configuration error *)
+                    if Z.ltb f 1 then Err "config: user configuration"
+                    else Ok (Runtime dur (cast_u64 f))
                 end
               else if String.eqb ty "iterations" then
                 do l <- get_config_i64 j "limit"; Ok (Iter (cast_u64 l))
